@@ -214,3 +214,28 @@ Proof.
   unfold c12_spec_value_keys, c12_spec_sub_keys. subst d. rewrite !c12_flat_map_map. cbn [fst].
   split; assumption.
 Qed.
+
+(* no key is listed twice *)
+Lemma c12_nodup_spec : forall l seen x, In x (c12_nodup l seen) -> c12_in x seen = false.
+Proof.
+  induction l as [|y l IH]; intros seen x H; [destruct H|]. cbn in H.
+  change (existsb (c12_eqs y) seen) with (c12_in y seen) in H.
+  destruct (c12_in y seen) eqn:Ey.
+  - apply (IH _ _ H).
+  - destruct H as [->|H]; [exact Ey|]. specialize (IH _ _ H). unfold c12_in in *. cbn in IH.
+    apply orb_false_iff in IH as [_ IH]. exact IH.
+Qed.
+
+Lemma c12_nodup_NoDup : forall l seen, NoDup (c12_nodup l seen).
+Proof.
+  induction l as [|y l IH]; intros seen; [constructor|]. cbn.
+  destruct (existsb (c12_eqs y) seen); [apply IH|]. constructor; [|apply IH].
+  intros Hin. apply c12_nodup_spec in Hin. unfold c12_in in Hin. cbn in Hin. rewrite c12_eqs_refl in Hin. discriminate.
+Qed.
+
+Lemma c12_keys_unique : forall kvs ow t' pr,
+  c12_store_all kvs c12_empty [] ow = (t', C12Ok) -> NoDup (c12_vkeys t' pr) /\ NoDup (c12_skeys t' pr).
+Proof.
+  intros kvs ow t' pr H. destruct (c12_key_order kvs ow t' pr H) as [Hv Hs]. rewrite Hv, Hs.
+  split; apply c12_nodup_NoDup.
+Qed.
